@@ -271,6 +271,12 @@ func runC19(t *testing.T, tape *sim.Tape, tier string) *Outcome {
 			o.stat("stop_with_connection_mid_handshake", 1)
 			o.stat("stop_with_connection_mid_request", 1)
 			o.stat("stop_with_idle_connections", len(keepers))
+			if tape.Draw(2, "failedstart") == 1 {
+				// a Start on the running server fails (ports in use) and must not change what Stop releases
+				cl.lifecycle("Start")
+				cl.settle(4000)
+				o.stat("failed_start_before_stop", 1)
+			}
 			cl.lifecycle("Stop")
 			cl.settle(4000)
 			releaseExec = true
@@ -353,7 +359,7 @@ func init() {
 	register(&Check{
 		ID: "C19", Bubble: true, Run: runC19,
 		Runs:   map[string]int{"quick": 800, "thorough": 2400},
-		Rule:   "a case (evaluation) is one connection lifetime inside a churn run: plain and TLS ports, optional common-name rule, reference store; each run opens 30 (thorough 1500) connections in batches with up to 1..32 in flight, each ended by a drawn mode {FIN at a request boundary or inside a request (half-close/close), RST at boundary/inside, QUIT, malformed frame, write failure after the client stopped reading, TLS garbage / abort after ClientHello / untrusted certificate / certificate rejected by the rule, TLS session then close or reset, idle then close}, interleaved by the seeded scheduler; some stay idle across batches; a third of the runs end with Stop while connections are idle, mid-request, mid-handshake and inside a handler call; accounting (socket closed, goroutine gone, registry entry gone; idle baseline at the end) at every drain point; distinct = distinct event-log hashes of runs",
+		Rule:   "a case (evaluation) is one connection lifetime inside a churn run: plain and TLS ports, optional common-name rule, reference store; each run opens 30 (thorough 1500) connections in batches with up to 1..32 in flight, each ended by a drawn mode {FIN at a request boundary or inside a request (half-close/close), RST at boundary/inside, QUIT, malformed frame, write failure after the client stopped reading, TLS garbage / abort after ClientHello / untrusted certificate / certificate rejected by the rule, TLS session then close or reset, idle then close}, interleaved by the seeded scheduler; some stay idle across batches; a third of the runs end with Stop (half of them after a Start that fails because the server is running) while connections are idle, mid-request, mid-handshake and inside a handler call; accounting (socket closed, goroutine gone, registry entry gone; idle baseline at the end) at every drain point; distinct = distinct event-log hashes of runs",
 		Real:   []string{"redis.Server accept loops, TLS handshake goroutine, connection loop, ConnManager, Stop", "crypto/tls"},
 		Stub:   []string{"network: simulated (descriptor count = server-side ends not yet closed; real descriptors do not exist in the simulation)", "handler: reference store"},
 		Assume: []string{"the idle baseline is the set of parked server tasks right after Start (one accept loop per enabled port)"},
